@@ -236,14 +236,17 @@ class Model(object):
         return
 
     def add_new_point(self, x, rvec, eval_num):
-        self.points = np.append(self.points, x.reshape((1, self.n())), axis=0)  # append row to xpt
-        self.fval_v = np.append(self.fval_v, rvec.reshape((1, self.m())), axis=0)  # append row to fval_v
+        # The new record goes directly behind the points held so far: while the set is still growing (npt_so_far < num_pts)
+        # the rows from npt() on are unused, and appending behind them would leave the new point outside [0, npt())
+        k = self.npt()
+        self.points = np.insert(self.points, k, x, axis=0)  # new row of xpt
+        self.fval_v = np.insert(self.fval_v, k, rvec, axis=0)  # new row of fval_v
         obj = sumsq(rvec)
         if self.h is not None:
             obj += self.h(remove_scaling(self.as_absolute_coordinates(x), self.scaling_changes), *self.argsh)
-        self.objval = np.append(self.objval, obj)  # append entry to fval
-        self.nsamples = np.append(self.nsamples, 1)  # add new sample number
-        self.eval_num = np.append(self.eval_num, eval_num)  # add new evaluation number
+        self.objval = np.insert(self.objval, k, obj)  # new entry of fval
+        self.nsamples = np.insert(self.nsamples, k, 1)  # add new sample number
+        self.eval_num = np.insert(self.eval_num, k, eval_num)  # add new evaluation number
         self.num_pts += 1  # make sure npt is updated
         self.npt_so_far += 1
 
